@@ -39,7 +39,8 @@
 (***************************************************************************)
 EXTENDS CFFLayoutOps, Json
 
-CONSTANTS Mode, Pads, BigNs
+CONSTANTS Mode, Pads, BigNs,
+          PermA, PermB   \* seeded permutation of codes: PermA odd, 3..125; PermB in 0..127
 
 VARIABLES d, stage
 vars == <<d, stage>>
@@ -52,10 +53,13 @@ NamePats == {"iso", "expert", "subset", "custom", "mixed", "stdrev", "runs", "od
 CidPats  == {"ident", "shift", "runs", "desc", "sparse", "top", "r256", "r257"}
 FdPats   == {"zero", "last", "alt", "blocks", "tail"}
 EncPats  == {"nil", "std", "stdplus", "expert", "zero", "range", "scatter", "tworange", "full"}
+\* saturation: all (or all but one / two) codes in use, in orders needing 1, K/2, K-1 or K ranges
+EncPatsSat == {"full", "rev", "rev1", "pairs", "perm"}
 EncKs    == {0, 1, 2, 37, 255, 256}
-WPats    == {"eq", "eqfrac", "ints", "fracdef", "fracmin", "mixed", "bound", "zero", "neg", "tiny", "big", "one"}
+WPats    == {"eq", "eqfrac", "ints", "fracdef", "fracmin", "mixed", "bound", "zero", "neg", "tiny", "big", "one",
+             "d107", "d108", "d1131", "d1132"}    \* the writer's defaultWidthX on a size-class boundary
 StrPats  == {"empty", "std", "custom", "dup"}
-UlPats   == {"def", "int", "frac", "bigint"}
+UlPats   == {"def", "int", "frac", "bigint"}     \* and "bnd": UlB[ulSel]
 FmPats   == {"def", "ident", "scaled", "skew", "huge", "neg"}
 \* "extreme": numbers beyond 1e-290..1e290 (denormal, beyond the reader's clamp): the font is marked
 \* loose and only termination / success of Write and Read is judged for its FontMatrix
@@ -66,18 +70,30 @@ Ns       == {1, 2, 3, 5, 12, 40, 150, 230, 258, 300, 520}
 Bulks    == {3, 40, 400}
 
 IntBnd == <<0, 1, -1, 107, 108, -107, -108, 1131, 1132, -1131, -1132, 32767, 32768, -32768, -32769,
-            65535, 65536, 2147483647, -2147483647, 7>>
+            65535, 65536, 2147483647, -2147483647, 7, 32769, -32767, -2147483647 - 1>>
 \* reals: 1..9 digits, exponents up to +-290
 Reals == << <<1, 0>>, <<12, -1>>, <<123, -2>>, <<1234, -3>>, <<12345, -4>>, <<123456, -5>>,
             <<1234567, -6>>, <<12345678, -7>>, <<123456789, -8>>, <<999999999, -9>>,
             <<5, -4>>, <<-25, -2>>, <<100000001, -8>>, <<2, 280>>, <<-314159265, -200>>,
-            <<999999999, 281>>, <<1, -290>>, <<123456789, -298>>, <<7, 3>>, <<1, 9>> >>
+            <<999999999, 281>>, <<1, -290>>, <<123456789, -298>>, <<7, 3>>, <<1, 9>>,
+            \* the integer size-class boundaries as values of float-typed fields
+            <<32768, 0>>, <<-32769, 0>>, <<32767, 0>>, <<214748365, 1>>, <<-214748365, 1>>,
+            <<1132, 0>>, <<-1131, 0>>, <<108, 0>>, <<-107, 0>> >>
 Angles == << <<0, 0>>, <<-125, -1>>, <<1, -3>>, <<179999999, -6>>, <<-123456789, -7>>, <<5, 0>>,
-             <<-90, 0>>, <<-1799, -1>>, <<100000001, -8>>, <<-2, -3>> >>
+             <<-90, 0>>, <<-1799, -1>>, <<100000001, -8>>, <<-2, -3>>,
+             <<107, 0>>, <<108, 0>>, <<-107, 0>>, <<-108, 0>> >>
 BlueScales == << <<39625, -6>>, <<5, -1>>, <<1, 0>>, <<123456789, -9>>, <<1, -9>>, <<15, -201>>,
                  <<987654321, -299>>, <<3, -2>>, <<39635, -6>>, <<0, 0>> >>
 StdWs == << <<0, 0>>, <<80, 0>>, <<405, -1>>, <<123456789, -5>>, <<1, 4>>, <<1, -7>>,
-            <<333333333, -250>>, <<1, 0>>, <<99999, -1>>, <<123456789, -8>> >>
+            <<333333333, -250>>, <<1, 0>>, <<99999, -1>>, <<123456789, -8>>,
+            <<107, 0>>, <<108, 0>>, <<1131, 0>>, <<1132, 0>> >>
+\* UnderlinePosition / UnderlineThickness are float-typed but written as integers when integral: every
+\* integer boundary, exactly.  <<m, e, a>> is the number m * 10^e + a (2^31 does not fit a TLC integer).
+UlB == << <<214748364, 1, 7>>, <<214748364, 1, 8>>, <<214748364, 1, 9>>,
+          <<-214748364, 1, -7>>, <<-214748364, 1, -8>>, <<-214748364, 1, -9>>,
+          <<32767, 0, 0>>, <<32768, 0, 0>>, <<32769, 0, 0>>, <<-32767, 0, 0>>, <<-32768, 0, 0>>, <<-32769, 0, 0>>,
+          <<1131, 0, 0>>, <<1132, 0, 0>>, <<-1131, 0, 0>>, <<-1132, 0, 0>>,
+          <<107, 0, 0>>, <<108, 0, 0>>, <<-107, 0, 0>>, <<-108, 0, 0>> >>
 
 (* The shape space of a nibble-coded real: sign, m = 1..9 significant digits (two digit families:
    1, 12, 123, ... and 7, 11, 101, 1001, ...), and the position of the decimal point relative to the
@@ -100,7 +116,7 @@ Mag(x) == x[3] + x[2]                                 \* value in [10^(Mag-1), 1
 
 Dflt == [kind |-> "simple", n |-> 5, namePat |-> "custom", cidPat |-> "ident", nfd |-> 1, fdPat |-> "zero",
        encPat |-> "range", encK |-> 2, nSup |-> 0, wPat |-> "ints", strPat |-> "custom", pad |-> 0,
-       intSel |-> 20, realSel |-> 1, ulPat |-> "def", fmPat |-> "def", privPat |-> "typ",
+       intSel |-> 20, realSel |-> 1, ulPat |-> "def", ulSel |-> 1, fmPat |-> "def", privPat |-> "typ",
        shapePat |-> "mixed", bulk |-> 3]
 
 (* ------------------------------ expansion ------------------------------ *)
@@ -167,6 +183,32 @@ Primary(n, pat, k0) ==
                               ELSE IF c - 150 > h /\ c - 150 <= K1 THEN c - 150 ELSE 0]
     [] pat = "full"     -> LET K1 == Min2(K, 256) IN [c1 \in 1..256 |-> IF c1 <= K1 THEN c1 ELSE 0]
     [] pat = "zero"     -> [c1 \in 1..256 |-> 0]
+    \* glyph g at code K - g: K ranges
+    [] pat = "rev"      -> LET K1 == Min2(K, 256) IN [c1 \in 1..256 |-> IF c1 <= K1 THEN K1 - (c1 - 1) ELSE 0]
+    \* glyphs 1, 2 at codes K-2, K-1, glyph g >= 3 at code K - g: K - 1 ranges
+    [] pat = "rev1"     -> LET K1 == Min2(K, 256) IN
+                           [c1 \in 1..256 |-> LET c == c1 - 1 IN
+                              IF c = K1 - 2 THEN 1 ELSE IF c = K1 - 1 THEN 2 ELSE IF c <= K1 - 3 THEN K1 - c ELSE 0]
+    \* blocks of two glyphs, the blocks in a seeded order: about K/2 ranges
+    [] pat = "pairs"    -> LET K1 == Min2(K, 256)  B == K1 \div 2 IN
+                           [c1 \in 1..256 |-> LET c == c1 - 1 IN
+                              IF c < 2 * B
+                                THEN 2 * (CHOOSE j \in 0..(B - 1) : (PermA * j + PermB) % B = c \div 2) + (c % 2) + 1
+                                ELSE IF c = K1 - 1 THEN K1 ELSE 0]
+    \* a seeded affine permutation of the codes: no two glyphs in a row
+    [] pat = "perm"     -> LET K1 == Min2(K, 256) IN
+                           [c1 \in 1..256 |->
+                              IF \E g \in 1..K1 : (g * PermA + PermB) % 256 = c1 - 1
+                                THEN CHOOSE g \in 1..K1 : (g * PermA + PermB) % 256 = c1 - 1 ELSE 0]
+    \* one or two encoded glyphs, every other code is an additional code of glyph 1 (255 / 254 supplements)
+    [] pat = "allsup"   -> LET K1 == Min2(K, 2) IN [c1 \in 1..256 |-> IF c1 <= K1 THEN c1 ELSE IF K1 = 0 THEN 0 ELSE 1]
+
+\* can the encoding be stored?  Format 0 holds at most 255 glyphs, format 1 at most 255 ranges.
+EncRanges(enc) ==
+  LET K == NumEncoded(enc)
+      code(g) == CHOOSE c \in 1..256 : enc[c] = g
+  IN 1 + Cardinality({g \in 1..(K - 1) : code(g + 1) # code(g) + 1})
+EncFits(enc) == NumEncoded(enc) <= 255 \/ EncRanges(enc) <= 255
 
 \* add s extra codes (the highest free ones) for already encoded glyphs
 RECURSIVE AddSups(_, _, _)
@@ -205,6 +247,10 @@ Widths(n, pat) ==
       [] pat = "neg"     -> IF i % 4 = 0 THEN <<-50, 0>> ELSE <<250, 0>>
       [] pat = "tiny"    -> IF i % 2 = 0 THEN <<0, 1>> ELSE <<500, 65535>>
       [] pat = "big"     -> IF i % 2 = 0 THEN <<16000, 0>> ELSE <<-16000 + i, 0>>
+      [] pat = "d107"    -> <<107, 0>>
+      [] pat = "d108"    -> <<108, 0>>
+      [] pat = "d1131"   -> <<1131, 0>>
+      [] pat = "d1132"   -> <<1132, 0>>
       [] pat = "one"     -> IF i = 0 THEN <<250, 49152>> ELSE <<600 + (i % 2), 0>>]
 
 Shapes(n, pat, bulk) ==
@@ -303,14 +349,18 @@ Expand(dd) ==
                   THEN (LET x == ShapeBlock(dd.realSel, dd.intSel, 0)[4] IN IF (Mag(x) <= 2 /\ Mag(x) >= -2) \/ (x[3] = 1 /\ x[2] = 2 /\ x[1] \in {1, -1})
                                                                   THEN Me(x) ELSE Z)   \* 0.001 <= |angle| < 180
                   ELSE Angles[((dd.realSel - 1) % Len(Angles)) + 1],
+      ulAdd |-> IF dd.ulPat = "bnd" /\ dd.fmPat # "shapes"
+                  THEN <<UlB[dd.ulSel][3], UlB[(dd.ulSel % Len(UlB)) + 1][3]>> ELSE <<0, 0>>,
       ulPos |-> IF dd.fmPat = "shapes"
                   THEN (LET x == ShapeBlock(dd.realSel, dd.intSel, 0)[5] IN IF Mag(x) <= 9 THEN Me(x) ELSE <<-100, 0>>) ELSE
                 CASE dd.ulPat = "def" -> <<-100, 0>> [] dd.ulPat = "int" -> <<-75, 0>>
-                  [] dd.ulPat = "frac" -> <<-1005, -1>> [] dd.ulPat = "bigint" -> <<-32769, 0>>,
+                  [] dd.ulPat = "frac" -> <<-1005, -1>> [] dd.ulPat = "bigint" -> <<-32769, 0>>
+                  [] dd.ulPat = "bnd" -> <<UlB[dd.ulSel][1], UlB[dd.ulSel][2]>>,
       ulThick |-> IF dd.fmPat = "shapes"
                     THEN (LET x == ShapeBlock(dd.realSel, dd.intSel, 0)[6] IN IF Mag(x) <= 9 THEN Me(x) ELSE <<50, 0>>) ELSE
                   CASE dd.ulPat = "def" -> <<50, 0>> [] dd.ulPat = "int" -> <<123, 0>>
-                    [] dd.ulPat = "frac" -> <<2025, -2>> [] dd.ulPat = "bigint" -> <<100000, 0>>,
+                    [] dd.ulPat = "frac" -> <<2025, -2>> [] dd.ulPat = "bigint" -> <<100000, 0>>
+                    [] dd.ulPat = "bnd" -> LET x == UlB[(dd.ulSel % Len(UlB)) + 1] IN <<x[1], x[2]>>,
       fm |-> FM(dd.fmPat, IF dd.fmPat = "shapes" THEN <<dd.realSel, dd.intSel>> ELSE dd.realSel, topDef),
       ros |-> IF cid THEN [reg |-> IF dd.strPat = "dup" THEN "Shared" ELSE "Adobe",
                            ord |-> IF dd.strPat = "std" THEN "Bold" ELSE "Identity",
@@ -324,7 +374,8 @@ Expand(dd) ==
                              \cup {s.version, s.notice, s.copyright, s.fullName, s.familyName, s.weight}
                              \cup (IF cid THEN {IF dd.strPat = "dup" THEN "Shared" ELSE "Adobe",
                                                  IF dd.strPat = "std" THEN "Bold" ELSE "Identity"} ELSE {}))
-                            \ ({StdStr[i] : i \in 1..NStd} \cup {""})) <= 64999 - (NStd - 1),
+                            \ ({StdStr[i] : i \in 1..NStd} \cup {""})) <= 64999 - (NStd - 1)
+               /\ (cid \/ ~e.has \/ EncFits(e.enc)),
       desc |-> dd]
 
 (* ------------------------------- behaviours ---------------------------- *)
@@ -344,6 +395,11 @@ Ofat1 ==  Vary("n", Ns) \cup Vary("namePat", NamePats) \cup Vary("cidPat", CidPa
      \cup {[Dflt EXCEPT !.n = n, !.namePat = p] : n \in {150, 230, 300}, p \in {"iso", "expert", "subset", "mixed", "stdrev", "runs"}}
      \cup {[Dflt EXCEPT !.n = n, !.encPat = p, !.encK = k, !.nSup = s] :
              n \in {12, 258, 300}, p \in {"range", "scatter", "tworange", "full"}, k \in {37, 255, 256}, s \in {0, 2}}
+     \* encodings at the saturation points of the count bytes (nCodes, nRanges, nSups: 254, 255, 256)
+     \cup {[Dflt EXCEPT !.n = 258, !.encPat = p, !.encK = k, !.nSup = s] :
+             p \in EncPatsSat, k \in {254, 255, 256}, s \in {0, 3}}
+     \cup {[Dflt EXCEPT !.encPat = "allsup", !.encK = k] : k \in {1, 2}}
+     \cup {[Dflt EXCEPT !.ulPat = "bnd", !.ulSel = u] : u \in 1..Len(UlB)}
      \cup {[Dflt EXCEPT !.n = 150, !.namePat = p, !.encPat = q, !.nSup = s] :
              p \in {"iso", "expert"}, q \in {"nil", "std", "stdplus", "expert"}, s \in {1, 3}}
      \cup {[Dflt EXCEPT !.n = n, !.cidPat = p] : n \in {259, 300, 520}, p \in CidPats}
